@@ -112,6 +112,29 @@ let run_case (toks : string list) (obs : (string, string list) Hashtbl.t) : stri
            let maxask = try int_of_string (kv "maxask" ok) with _ -> 0 in
            let maxv = ZZ.to_int (z_of_coq max) in
            if maxask > 65536 + maxv then Printf.sprintf "PROPFAIL %s sig=buffer-bound single read of %d bytes requested with max frame %d" id maxask maxv else
+           (* framing-level predicate, from the property text alone: a frame whose prefix is a valid length and whose
+              declared bytes are all present is consumed exactly, whatever its content and whatever NextFrame returned *)
+           let rec frame_ends (s : n list) (pos : int) (acc : int list) (fuel : int) : int list =
+             if fuel = 0 || s = [] then List.rev acc else
+             match dec_int32 s with
+             | I32 (l, r) ->
+                 let lz = z_of_coq l in
+                 let plen = List.length s - List.length r in
+                 if ZZ.gt lz ZZ.zero && ZZ.leq lz (z_of_coq max) && ZZ.to_int lz <= List.length r then begin
+                   let li = ZZ.to_int lz in
+                   let rec drop n l = if n = 0 then l else match l with [] -> [] | _ :: t -> drop (n - 1) t in
+                   frame_ends (drop li r) (pos + plen + li) ((pos + plen + li) :: acc) (fuel - 1)
+                 end else List.rev acc
+             | _ -> List.rev acc in
+           let ends = frame_ends stream 0 [] 64 in
+           let cons_bad = ref None in
+           List.iteri (fun i e ->
+             if !cons_bad = None && i < List.length icons && List.nth icons i <> e then cons_bad := Some (i, e, List.nth icons i)) ends;
+           (match !cons_bad with
+            | Some (i, e, c) ->
+                Printf.sprintf "PROPFAIL %s sig=consumption frame#%d is complete in the stream and ends at byte %d, but %d bytes were consumed when NextFrame returned %s" id i e c
+                  (try List.nth iouts i with _ -> "?")
+            | None ->
            (match hostile_pred slen (kv "end" k) iouts icons with
             | Some why -> Printf.sprintf "PROPFAIL %s sig=%s %s" id why why
             | None ->
@@ -137,5 +160,5 @@ let run_case (toks : string list) (obs : (string, string list) Hashtbl.t) : stri
                       if expect <> "" && expect <> String.concat "|" mouts then
                         Printf.sprintf "MISMATCH %s generator-expectation model=%s expected=%s" id (String.concat "|" mouts) expect
                       else Printf.sprintf "AGREE %s %s" id (if kv "nt" k = "1" then "nontrivial" else "trivial"))
-           end))
+           end)))
   | _ -> "SKIP"
